@@ -2,6 +2,7 @@
 //! usage: trh <ops-file>      (prints the event log, one `case <n>` block per case)
 mod world;
 mod mw_bulkhead;
+mod mw_stack;
 mod mw_timelimiter;
 mod mw_chaos;
 mod mw_fallback;
@@ -36,6 +37,7 @@ fn make(mw: &str, kv: &Kv) -> Option<Box<dyn Mw>> {
         "fallback" => Some(Box::new(mw_fallback::Adapter::new(kv))),
         "chaos" => Some(Box::new(mw_chaos::Adapter::new(kv))),
         "timelimiter" => Some(Box::new(mw_timelimiter::Adapter::new(kv))),
+        "stack" => Some(Box::new(mw_stack::Adapter::new(kv))),
         _ => None,
     }
 }
